@@ -47,20 +47,66 @@
   is quiet by design); the calls are removed
   k's own calls are gone; a later progressive YIELD for them     C05_leave_own_calls
   finds no invocation and draws an INTERRUPT
+  [WP-C] … sharpened: the invocation, the call and the link     C05_leave_own_calls'
+  of every call made by k ARE gone (no alternative)
+  [WP-C] … hence the callee's later YIELD for it: progressive    C05_yield_after_caller_left (dealer),
+  ⇒ INTERRUPT(killnowait) appended to the callee's queue if      C05_yield_after_caller_left_realm
+  there is room, nothing else changes; final ⇒ nothing at all    (`handleYield`, end to end)
+  [WP-C] "registrations no longer exist": every registration    C05_leave_regs_gone
+  left has callees, none of them k, and is an old one minus k;
+  `matchProcedure` / `findProc` / `findReg` return only such;
+  a registration whose only callee was k is not found any more
+  [WP-C] the same for subscriptions (`findId` / `findTopic` /    C05_leave_subs_gone
+  `matching`); a subscription whose only member was k and that
+  has no history store is gone; the history stores are untouched
+  [WP-C] meta API after the leave: list_callees/count_callees,   C05_leave_meta_callees,
+  list_subscribers/count_subscribers, session.list/count/get     C05_leave_meta_subscribers,
+  never mention / count k                                         C05_leave_meta_sessions
   testaments: k's bucket is taken from the table and turned      C05_leave_testaments
   into publish tasks exactly once, detached then destroyed,
   followed by on_leave, for EVERY non-shutdown mode (kill_all
   included: F30 fixed); nothing for shutdown
+  [WP-C] running a testament's publish task: a well-formed       C05_testament_published,
+  testament (valid topic, disclose_me allowed) IS published      C05_meta_publisher_reachable
+  — `ppt_scheme` included — to exactly the C01-expected
+  subscribers, nobody is aborted, no task, no acknowledgement;   C05_testament_published_reachable
+  in reachable states the feature hypothesis holds by itself
+  [WP-C] an ill-formed one (invalid topic / disclose_me          C05_testament_dropped
+  refused) leaves the state unchanged (also with acknowledge)
+  [WP-C] exactly one publish task per stored testament, the      C05_testaments_exactly_once
+  bucket is gone, and each task publishes once / never
   testament buckets are stored under keys of attached sessions   C05_testaments_task_level,
   only: kept by every task / input / timed event / step;         C05_testaments_attached, _reachable,
   add_testament of a caller that has left stores nothing          C05_add_testament_unattached
+  [WP-C] "for any reason" (kill through the meta API, ABORT by    C05_ending_only_busy,
+  broker/dealer, …): marking a session as ending and queueing     C05_marked_ending_gone,
+  its `leave` always go together; at quiescence only sessions    C05_end_pending_preserved
+  with a busy handler (deferred departure) are still marked;
+  from any moment inside a step, a marked session with a free
+  handler is gone once the pending tasks have run
+  [WP-C] … at every level: reachable state, every single task,   C05_testaments_live
+  every input, every step
+  [WP-C] FROM THE INPUT TO THE EFFECT: an input that ends k       C05_end_input_gone,
+  (lost transport, GOODBYE, protocol violation) — by the END OF   C05_end_input_gone_inv
+  THAT STEP k is no client and occurs nowhere (tables, ending,
+  deferred, inbox, retries, testaments), nothing is pending;
+  unless k's handler is busy / the task fuel ran out (`drain`
+  induction principle `WpC.drain_quiescent`)
   "the router holds no per-session … state" once no session      C05_returns_to_empty
   is attached
+  [WP-C] … and no testament, nobody ending, nothing deferred,    C05_returns_to_empty'
+  nothing waiting in a transport, only the meta session's
+  handler possibly retrying, no pending task (client-level
+  histories `ReachableC`)
   calls / invocations / invocationByCall have equal sizes,       C05_bounded
   every entry belongs to attached sessions (so the tables are
   bounded by the pending calls of attached sessions)
 
-  HYPOTHESES ON SESSION KEYS.  None of the theorems below needs "joins use fresh keys" or
+  HYPOTHESES ON SESSION KEYS.  None of the theorems below — except the [WP-C] §4 ones, which are about
+  histories of client-level inputs (`WpC.ReachableC`: a joining key is fresh and is not the meta key, only
+  attached clients are dropped; the model's `Op` type also admits `.drop k` for a key that names no client,
+  which leaves k in `ending` for ever: an artefact of the input type, see `C04_meta_never_ends_full_fails`) —
+  needs "joins use fresh keys" or
   "no session joins with key 0 (= metaKey)": `isClient` / `att` are stated by key, `Realm.leave k`
   removes every client entry with key k, and a client that (in the model only — the harness never
   does it, the router draws random non-zero ids) carried the key 0 would merely be conflated with
@@ -81,6 +127,11 @@
     testament of a session that does not exist; it is false for the fixed router), of steps and in
     every reachable state (`C05_testaments_attached`, `C05_testaments_attached_reachable`).
     `C05_leave_testaments` (what leave does to the table) is unconditional.
+  * [WP-C] a testament whose publish options say `acknowledge: true` makes the router produce
+    PUBLISHED (or the ERROR of the two silent cases) for the META session; the model's `trySend` drops
+    everything but INVOCATIONs addressed to the meta session (`C05_testament_published`,
+    `C05_testament_dropped` say so explicitly).  In Go `metaProcedureHandler` reacts to such a message
+    by re-sending its previous response (realm.go `default:` branch) — harmless today, not modelled.
   * F30 (fixed in /repo 624448b, model follows): sessions ended by `kill_all` used to lose their
     testaments and their `on_leave`; now `kill_all` is a kill like any other and
     `C05_leave_testaments` holds at full strength for every non-shutdown mode.  Only the realm
@@ -88,6 +139,12 @@
 -/
 import Nexus.L2.Proofs.RealmLeave
 import Nexus.L2.Proofs.RealmMeta
+-- [WP-C / C05 — begin imports]
+import Nexus.L2.Proofs.WpCLeaveCalls
+import Nexus.L2.Proofs.WpCLeaveTables
+import Nexus.L2.Proofs.WpCLeaveTestament
+import Nexus.L2.Proofs.WpCPend
+-- [WP-C / C05 — end imports]
 
 namespace Nexus.C05
 open Nexus.L2 Nexus.L2.Realm Nexus.Gen.N
@@ -246,6 +303,411 @@ theorem C05_yield_after_leave (env : DEnv) (s : DState) (callee : SessKey) (req 
   · rw [syncYield_none opts args kw true canRetry hf]; simp [hfull]
   · rw [syncYield_none opts args kw false canRetry hf]; simp
 
+/-! ## [WP-C / C05 §1 — begin] the calls of a departed caller, sharpened -/
+
+/-- Example states for the non-vacuity examples of the WP-C sections: sessions 1 and 2 join, 2 registers
+    "p" and subscribes to "t", 1 calls "p" (the INVOCATION is in 2's queue, the call is pending). Built
+    by `stepOp`, so the invariant holds by `C05_live_refs_stepOp`. -/
+def WpCEx.r3 : Realm :=
+  ((({} : Realm).stepOp (.join 1 false [] [] 8)).stepOp (.join 2 false [] [] 8)).stepOp (.msg 2 (.register 1 [] "p"))
+def WpCEx.r4 : Realm := WpCEx.r3.stepOp (.msg 2 (.subscribe 2 [] "t"))
+def WpCEx.r5 : Realm := WpCEx.r4.stepOp (.msg 1 (.call 1 [] "p" [] []))
+
+theorem WpCEx.r4_inv : RealmInv WpCEx.r4 :=
+  C05_live_refs_stepOp _ (C05_live_refs_stepOp _ (C05_live_refs_stepOp _ (C05_live_refs_stepOp _
+    (RealmInv.empty []) _) _) _) _
+theorem WpCEx.r5_inv : RealmInv WpCEx.r5 := C05_live_refs_stepOp _ WpCEx.r4_inv _
+
+/-- `k`'s own calls ARE gone (sharpening of `C05_leave_own_calls`, whose second alternative is
+    impossible): for every invocation `v` of a call made by `k`, after the leave — in every mode — no
+    invocation with `v`'s id is stored (invocation ids are unique and the departure only removes
+    invocations, so an invocation left over under that id would be `v` itself, whose caller is gone),
+    the call is not pending and has no call→invocation link.  So whatever the callee still sends for
+    that invocation finds nothing. -/
+theorem C05_leave_own_calls' (r : Realm) (hi : RealmInv r) (k : SessKey) (mode : LeaveMode)
+    (hk : r.isClient k) (hnb : r.busy k = false) (v : Invk) (hv : v ∈ r.ds.d.invs) (hvk : v.callId.sess = k) :
+    let r' := r.leave k mode
+    r'.ds.d.findInv v.id = none ∧ v.callId ∉ r'.ds.d.calls ∧ (∀ p ∈ r'.ds.d.byCall, p.1 ≠ v.callId) := by
+  intro r'
+  obtain ⟨h1, _, _, _, _, _, _, _, hcalls, hinvs, _, _⟩ := C05_leave_gone r hi k mode hk hnb
+  obtain ⟨s, hf⟩ := WpC.find_of_isClient hk
+  refine ⟨WpC.leave_findInv_none hi mode hf (fun w hw => (hinvs w hw).2) hv hvk, fun hc => hcalls _ hc hvk, ?_⟩
+  intro p hp e
+  exact hcalls _ ((h1.dinv.call.callBy p.1).mpr ⟨p.2, hp⟩) (e ▸ hvk)
+
+-- non-vacuity: in the example state session 1 is attached, not busy, and has a pending call
+example : RealmInv WpCEx.r5 ∧ WpCEx.r5.isClient 1 ∧ WpCEx.r5.busy 1 = false ∧
+    ∃ v ∈ WpCEx.r5.ds.d.invs, v.callId.sess = 1 :=
+  ⟨WpCEx.r5_inv, by unfold Realm.isClient; decide +kernel, by decide +kernel, by decide +kernel⟩
+
+/-- "Progressive results for them are interrupted", at the dealer: after the caller `k` has left, the
+    callee's YIELD for that invocation (`v.id = (v.callee, v.id.req)`), handled in the state after the
+    leave, finds no invocation.  A progressive YIELD is answered with exactly one
+    INTERRUPT(request, {mode: killnowait}) to the callee when the callee's queue is not full, and with
+    nothing when it is full; a final YIELD is ignored.  The dealer state is unchanged in all three cases,
+    nothing is sent to anybody else, nobody is aborted, the handler never enters the retry loop. -/
+theorem C05_yield_after_caller_left (r : Realm) (hi : RealmInv r) (k : SessKey) (mode : LeaveMode)
+    (hk : r.isClient k) (hnb : r.busy k = false) (v : Invk) (hv : v ∈ r.ds.d.invs) (hvk : v.callId.sess = k)
+    (opts : Dict) (args : List WVal) (kw : Dict) (canRetry : Bool) :
+    let r' := r.leave k mode
+    (r'.isFull v.callee = false →
+      syncYield r'.denv r'.ds v.callee v.id.req opts args kw true canRetry =
+        { st := r'.ds, sends := [⟨v.callee, .interrupt v.id.req [(OptMode, .str CancelModeKillNoWait)]⟩] }) ∧
+    (r'.isFull v.callee = true →
+      syncYield r'.denv r'.ds v.callee v.id.req opts args kw true canRetry = { st := r'.ds }) ∧
+    syncYield r'.denv r'.ds v.callee v.id.req opts args kw false canRetry = { st := r'.ds } := by
+  intro r'
+  have hid : (⟨v.callee, v.id.req⟩ : ReqId) = v.id := by
+    rw [hi.dinv.call.callee v hv]
+  have hfn : r'.ds.d.findInv ⟨v.callee, v.id.req⟩ = none := by
+    rw [hid]; exact (C05_leave_own_calls' r hi k mode hk hnb v hv hvk).1
+  obtain ⟨h1, h2⟩ := C05_yield_after_leave r'.denv r'.ds v.callee v.id.req opts args kw canRetry hfn
+  refine ⟨h1, ?_, h2⟩
+  intro hfull
+  rw [syncYield_none opts args kw true canRetry hfn]
+  have : r'.denv.full v.callee = true := hfull
+  simp [this]
+
+/-- … and end to end, at the realm: the callee session `s` (`s.key = v.callee`) sends
+    YIELD(v.id.req, opts, args, kw) after the caller `k` has left.  `handleYield` in the state `r'` after
+    the leave is `r'` with INTERRUPT(v.id.req, {mode: killnowait}) offered to `s`'s own queue when the
+    YIELD is progressive and that queue is not full, and is exactly `r'` otherwise.  For a callee that
+    is an attached (non-meta) session with capacity `c.cap`: the new state is `r'` with exactly that
+    message appended to exactly that queue (everything else — tables, other queues, tasks, retries,
+    panic flag — unchanged); if the YIELD is final or the queue is full, nothing changes at all.  For the
+    meta session as callee (the `wamp.*` procedures) nothing changes either.  (A callee that is `k`
+    itself is no longer attached: its queue counts as full, nothing changes.) -/
+theorem C05_yield_after_caller_left_realm (r : Realm) (hi : RealmInv r) (k : SessKey) (mode : LeaveMode)
+    (hk : r.isClient k) (hnb : r.busy k = false) (v : Invk) (hv : v ∈ r.ds.d.invs) (hvk : v.callId.sess = k)
+    (s : Session) (hs : s.key = v.callee) (opts : Dict) (args : List WVal) (kw : Dict) :
+    let r' := r.leave k mode
+    let intr : Msg := .interrupt v.id.req [(OptMode, .str CancelModeKillNoWait)]
+    handleYield r' s v.id.req opts args kw =
+      (if opts.optFlag OptProgress = true ∧ r'.isFull s.key = false then r'.trySend ⟨s.key, intr⟩ else r') ∧
+    (∀ c, s.key ≠ metaKey → r'.client? s.key = some c →
+      handleYield r' s v.id.req opts args kw =
+        (if opts.optFlag OptProgress = true ∧ r'.queueLen s.key < c.cap
+         then { r' with queues := enq r'.queues s.key intr } else r') ∧
+      (opts.optFlag OptProgress = true → r'.queueLen s.key < c.cap →
+        (handleYield r' s v.id.req opts args kw).queueOf s.key = r'.queueOf s.key ++ [intr] ∧
+        ∀ k', k' ≠ s.key → (handleYield r' s v.id.req opts args kw).queueOf k' = r'.queueOf k')) ∧
+    (s.key = metaKey → handleYield r' s v.id.req opts args kw = r') := by
+  intro r' intr
+  have hid : (⟨s.key, v.id.req⟩ : ReqId) = v.id := by
+    rw [hs, hi.dinv.call.callee v hv]
+  have hfn : r'.ds.d.findInv ⟨s.key, v.id.req⟩ = none := by
+    rw [hid]; exact (C05_leave_own_calls' r hi k mode hk hnb v hv hvk).1
+  refine ⟨WpC.handleYield_noInv r' s v.id.req opts args kw hfn, ?_,
+    WpC.handleYield_noInv_meta r' s v.id.req opts args kw hfn⟩
+  intro c hne hc
+  have heq := WpC.handleYield_noInv_client r' s c v.id.req opts args kw hfn hne hc
+  refine ⟨heq, ?_⟩
+  intro hp hroom
+  rw [heq, if_pos ⟨hp, hroom⟩]
+  refine ⟨?_, fun k' hk' => ?_⟩
+  · show qlook (enq r'.queues s.key intr) s.key = _
+    rw [qlook_enq, if_pos rfl]; rfl
+  · show qlook (enq r'.queues s.key intr) k' = _
+    rw [qlook_enq, if_neg hk']; rfl
+
+-- non-vacuity, end to end on the example: caller 1 is lost; callee 2's progressive YIELD for the
+-- invocation (request id 1) appends one INTERRUPT (type 69) to 2's queue, a final YIELD nothing
+example :
+    let r' := WpCEx.r5.leave 1 .lost
+    let s2 : Session := { key := 2, details := [], roles := [], isLocal := false, cap := 8 }
+    (∃ v ∈ WpCEx.r5.ds.d.invs, v.callId.sess = 1 ∧ v.callee = 2 ∧ v.id.req = 1) ∧
+    ((handleYield r' s2 1 [(OptProgress, .bool true)] [] []).queueOf 2).map Msg.typeCode =
+      (r'.queueOf 2).map Msg.typeCode ++ [69] ∧
+    ((handleYield r' s2 1 [] [] []).queueOf 2).map Msg.typeCode = (r'.queueOf 2).map Msg.typeCode := by
+  decide +kernel
+
+/-! ## [WP-C / C05 §1 — end] -/
+
+/-! ## [WP-C / C05 §2 — begin] registrations, subscriptions and the meta API after the leave -/
+
+/-- "Its registrations no longer exist for matching, sharing decisions or the meta API."  After the
+    leave of `k` (every mode):
+    * every registration left has at least one callee, `k` is not among them, and it is a
+      registration that existed before — same id, procedure, match, policy — whose callees are the old
+      callees without `k`;
+    * hence `matchProcedure p` (what CALL routes by), `findProc p kind` (what REGISTER shares by,
+      `wamp.registration.lookup`) and `findReg id` (UNREGISTER, `wamp.registration.get` …) return only
+      such registrations;
+    * a registration whose ONLY callee was `k` has been deleted: its id is not found, no registration
+      with its (procedure, match kind) is found — a later REGISTER of that procedure creates a new
+      registration, a CALL does not match it — and no lookup whatsoever returns it. -/
+theorem C05_leave_regs_gone (r : Realm) (hi : RealmInv r) (k : SessKey) (mode : LeaveMode)
+    (hk : r.isClient k) (hnb : r.busy k = false) :
+    let r' := r.leave k mode
+    (∀ g ∈ r'.ds.d.regs, g.callees ≠ [] ∧ k ∉ g.callees ∧
+      ∃ g0 ∈ r.ds.d.regs, g.id = g0.id ∧ g.proc = g0.proc ∧ g.«match» = g0.«match» ∧ g.policy = g0.policy ∧
+        ∀ c, c ∈ g.callees ↔ c ∈ g0.callees ∧ c ≠ k) ∧
+    (∀ p g, r'.ds.d.matchProcedure p = some g → g ∈ r'.ds.d.regs ∧ g.callees ≠ [] ∧ k ∉ g.callees) ∧
+    (∀ p kind g, r'.ds.d.findProc p kind = some g → g ∈ r'.ds.d.regs ∧ g.callees ≠ [] ∧ k ∉ g.callees) ∧
+    (∀ id g, r'.ds.d.findReg id = some g → g ∈ r'.ds.d.regs ∧ g.callees ≠ [] ∧ k ∉ g.callees) ∧
+    (∀ g ∈ r.ds.d.regs, g.callees = [k] →
+      r'.ds.d.findReg g.id = none ∧ r'.ds.d.findProc g.proc g.kind = none ∧
+      (∀ g' ∈ r'.ds.d.regs, g'.id ≠ g.id ∧ ¬ (g'.proc = g.proc ∧ g'.kind = g.kind)) ∧
+      (∀ p g', r'.ds.d.matchProcedure p = some g' → g'.id ≠ g.id ∧ ¬ (g'.proc = g.proc ∧ g'.kind = g.kind))) := by
+  intro r'
+  obtain ⟨h1, _, _, _, _, _, hrel, _⟩ := C05_leave_gone r hi k mode hk hnb
+  obtain ⟨s, hf⟩ := WpC.find_of_isClient hk
+  have hframe := WpC.leave_reg_frame hi mode hf h1
+  have hall : ∀ g ∈ r'.ds.d.regs, g.callees ≠ [] ∧ k ∉ g.callees :=
+    fun g hg => ⟨(h1.dinv.reg.regs.callees g hg).1, fun hc => hrel g.id ⟨g, hg, rfl, hc⟩⟩
+  have hsole : ∀ g ∈ r.ds.d.regs, g.callees = [k] →
+      ∀ g' ∈ r'.ds.d.regs, g'.id ≠ g.id ∧ ¬ (g'.proc = g.proc ∧ g'.kind = g.kind) := by
+    intro g hg hgc g' hg'
+    obtain ⟨g0, hg0, e1, e2, e3, _, hc⟩ := hframe g' hg'
+    have hne : g0 ≠ g := by
+      rintro rfl
+      obtain ⟨c, hcm⟩ := List.exists_mem_of_ne_nil _ (hall g' hg').1
+      obtain ⟨hc1, hc2⟩ := (hc c).mp hcm
+      rw [hgc] at hc1
+      exact hc2 (List.mem_singleton.mp hc1)
+    refine ⟨fun e => hne (WpC.reg_eq_of_id hi.dinv.reg.regs hg0 hg (e1.symm.trans e)), fun e => hne ?_⟩
+    exact WpC.reg_eq_of_key hi.dinv.reg.regs hg0 hg (e2.symm.trans e.1) ((WpC.reg_kind_eq e3).symm.trans e.2)
+  refine ⟨fun g hg => ⟨(hall g hg).1, (hall g hg).2, ?_⟩, ?_, ?_, ?_, ?_⟩
+  · obtain ⟨g0, hg0, e⟩ := hframe g hg
+    exact ⟨g0, hg0, e⟩
+  · intro p g hm
+    have := matchProcedure_mem hm
+    exact ⟨this, hall g this⟩
+  · intro p kind g hm
+    have : g ∈ r'.ds.d.regs := List.mem_of_find?_eq_some hm
+    exact ⟨this, hall g this⟩
+  · intro id g hm
+    have : g ∈ r'.ds.d.regs := List.mem_of_find?_eq_some hm
+    exact ⟨this, hall g this⟩
+  · intro g hg hgc
+    have hs := hsole g hg hgc
+    refine ⟨findReg_eq_none.mpr (fun g' hg' => (hs g' hg').1),
+      findProc_eq_none.mpr (fun g' hg' e => (hs g' hg').2 ⟨e.2, e.1⟩), hs, ?_⟩
+    intro p g' hm
+    exact hs g' (matchProcedure_mem hm)
+
+-- non-vacuity: in the example state session 2 is the only callee of the registration of "p"; after its
+-- departure no registration is left at all
+example : RealmInv WpCEx.r5 ∧ WpCEx.r5.isClient 2 ∧ WpCEx.r5.busy 2 = false ∧
+    (∃ g ∈ WpCEx.r5.ds.d.regs, g.callees = [2] ∧ g.proc = "p") ∧
+    (WpCEx.r5.leave 2 .lost).ds.d.regs.length = 0 :=
+  ⟨WpCEx.r5_inv, by unfold Realm.isClient; decide +kernel, by decide +kernel, by decide +kernel, by decide +kernel⟩
+
+/-- "Its subscriptions no longer exist for matching or the meta API."  After the leave of `k`:
+    * every subscription left does not have `k` among its members, is a subscription that existed
+      before — same id, topic, match — whose members are the old members without `k`, and if it has no
+      member at all it has a history store (a pre-configured history subscription);
+    * the history stores are untouched;
+    * `findId id` (UNSUBSCRIBE, `wamp.subscription.get` …), `findTopic t kind` (SUBSCRIBE,
+      `wamp.subscription.lookup`) and `matching t` (PUBLISH, `wamp.subscription.match`) return only
+      such subscriptions;
+    * a subscription whose ONLY member was `k` and that has no history store has been deleted: neither
+      its id nor its (topic, match kind) is found any more, `matching` never returns it. -/
+theorem C05_leave_subs_gone (r : Realm) (hi : RealmInv r) (k : SessKey) (mode : LeaveMode)
+    (hk : r.isClient k) (hnb : r.busy k = false) :
+    let r' := r.leave k mode
+    (∀ s ∈ r'.broker.subs, k ∉ s.members ∧ (s.members = [] → r'.broker.hasHist s.id = true) ∧
+      ∃ s0 ∈ r.broker.subs, s.id = s0.id ∧ s.topic = s0.topic ∧ s.«match» = s0.«match» ∧
+        ∀ c, c ∈ s.members ↔ c ∈ s0.members ∧ c ≠ k) ∧
+    r'.broker.hist = r.broker.hist ∧
+    (∀ id s, r'.broker.findId id = some s → s ∈ r'.broker.subs ∧ k ∉ s.members) ∧
+    (∀ t kind s, r'.broker.findTopic t kind = some s → s ∈ r'.broker.subs ∧ k ∉ s.members) ∧
+    (∀ t x, x ∈ r'.broker.matching t → x.1 ∈ r'.broker.subs ∧ k ∉ x.1.members) ∧
+    (∀ s ∈ r.broker.subs, s.members = [k] → r.broker.hasHist s.id = false →
+      r'.broker.findId s.id = none ∧ r'.broker.findTopic s.topic s.kind = none ∧
+      (∀ s' ∈ r'.broker.subs, s'.id ≠ s.id ∧ ¬ (s'.topic = s.topic ∧ s'.kind = s.kind)) ∧
+      (∀ t x, x ∈ r'.broker.matching t → x.1.id ≠ s.id)) := by
+  intro r'
+  obtain ⟨h1, _, _, _, hmem, _⟩ := C05_leave_gone r hi k mode hk hnb
+  obtain ⟨s, hf⟩ := WpC.find_of_isClient hk
+  have hframe := WpC.leave_sub_frame hi mode hf h1
+  have hhist : r'.broker.hist = r.broker.hist := (WpC.leave_subs_sub hi mode hf).2
+  have hall : ∀ s ∈ r'.broker.subs, k ∉ s.members := fun s hs hc => hmem ⟨s, hs, hc⟩
+  have hsole : ∀ s0 ∈ r.broker.subs, s0.members = [k] → r.broker.hasHist s0.id = false →
+      ∀ s' ∈ r'.broker.subs, s'.id ≠ s0.id ∧ ¬ (s'.topic = s0.topic ∧ s'.kind = s0.kind) := by
+    intro s0 hs0 hm hh s' hs'
+    obtain ⟨s1, hs1, e1, e2, e3, hc⟩ := hframe s' hs'
+    have hne : s1 ≠ s0 := by
+      rintro rfl
+      have hempty : s'.members = [] := by
+        cases hms : s'.members with
+        | nil => rfl
+        | cons c cs =>
+          obtain ⟨hc1, hc2⟩ := (hc c).mp (by rw [hms]; exact List.mem_cons_self ..)
+          rw [hm] at hc1
+          exact absurd (List.mem_singleton.mp hc1) hc2
+      have := h1.binv.empty_hist s' hs' hempty
+      unfold Broker.hasHist at this hh
+      rw [hhist, e1, hh] at this
+      cases this
+    refine ⟨fun e => hne (eq_of_id_eq hi.binv.ids_nodup hs1 hs0 (e1.symm.trans e)), fun e => hne ?_⟩
+    exact hi.binv.topic_unique s1 hs1 s0 hs0 (e2.symm.trans e.1) ((WpC.sub_kind_eq e3).symm.trans e.2)
+  refine ⟨fun s' hs' => ⟨hall s' hs', h1.binv.empty_hist s' hs', ?_⟩, hhist, ?_, ?_, ?_, ?_⟩
+  · obtain ⟨s0, hs0, e⟩ := hframe s' hs'
+    exact ⟨s0, hs0, e⟩
+  · intro id s' hm
+    exact ⟨(findId_some hm).1, hall s' (findId_some hm).1⟩
+  · intro t kind s' hm
+    exact ⟨(findTopic_some hm).1, hall s' (findTopic_some hm).1⟩
+  · intro t x hx
+    exact ⟨matching_sub hx, hall x.1 (matching_sub hx)⟩
+  · intro s0 hs0 hm hh
+    have hs := hsole s0 hs0 hm hh
+    refine ⟨?_, ?_, hs, fun t x hx => (hs x.1 (matching_sub hx)).1⟩
+    · unfold Broker.findId
+      rw [List.find?_eq_none]
+      intro s' hs' e
+      exact (hs s' hs').1 (by simpa using e)
+    · unfold Broker.findTopic
+      rw [List.find?_eq_none]
+      intro s' hs' e
+      simp only [Bool.and_eq_true, beq_iff_eq] at e
+      exact (hs s' hs').2 ⟨e.2, e.1⟩
+
+-- non-vacuity: in the example state session 2 is the only subscriber of "t" (no history store);
+-- after its departure no subscription is left
+example : (∃ s ∈ WpCEx.r5.broker.subs, s.members = [2] ∧ s.topic = "t" ∧ WpCEx.r5.broker.hasHist s.id = false) ∧
+    (WpCEx.r5.leave 2 .lost).broker.subs.length = 0 :=
+  ⟨by decide +kernel, by decide +kernel⟩
+
+/-- The meta API after the leave of `k`, registrations: `wamp.registration.list_callees` and
+    `wamp.registration.count_callees` (for whatever arguments) either answer
+    ERROR wamp.error.no_such_registration, or answer for a registration `g` still in the table the list
+    `g.callees` (as session ids) resp. its length — and `k` is not in that list (so its session id is
+    not listed and it is not counted). -/
+theorem C05_leave_meta_callees (r : Realm) (hi : RealmInv r) (k : SessKey) (mode : LeaveMode)
+    (hk : r.isClient k) (hnb : r.busy k = false) (req : Nat) (details : Dict) (args : List WVal) (kw : Dict) :
+    let r' := r.leave k mode
+    match regArg r' args with
+    | none =>
+      metaProc r' MetaProcRegListCallees req details args kw = (mErr req ErrNoSuchRegistration, r') ∧
+      metaProc r' MetaProcRegCountCallees req details args kw = (mErr req ErrNoSuchRegistration, r')
+    | some g =>
+      g ∈ r'.ds.d.regs ∧ k ∉ g.callees ∧ sidVal k ∉ g.callees.map sidVal ∧
+      metaProc r' MetaProcRegListCallees req details args kw = (mYield req [.list (g.callees.map sidVal)], r') ∧
+      metaProc r' MetaProcRegCountCallees req details args kw = (mYield req [.int g.callees.length], r') := by
+  intro r'
+  have h1 := metaProc_regListCallees r' req details args kw
+  have h2 := metaProc_regCountCallees r' req details args kw
+  cases hra : regArg r' args with
+  | none =>
+    rw [hra] at h1 h2
+    exact ⟨h1, h2⟩
+  | some g =>
+    rw [hra] at h1 h2
+    obtain ⟨id, hfr⟩ : ∃ id, r'.ds.d.findReg id = some g := by
+      unfold regArg at hra
+      split at hra
+      · split at hra
+        · exact ⟨_, hra⟩
+        · cases hra
+      · cases hra
+    obtain ⟨hm, _, hnk⟩ := (C05_leave_regs_gone r hi k mode hk hnb).2.2.2.1 id g hfr
+    exact ⟨hm, hnk, WpC.sidVal_not_mem hnk, h1, h2⟩
+
+/-- The meta API after the leave of `k`, subscriptions: `wamp.subscription.list_subscribers` and
+    `wamp.subscription.count_subscribers` either answer ERROR wamp.error.no_such_subscription, or answer
+    for a subscription `s` still in the table the list `s.members` (as session ids) resp. its length —
+    and `k` is not in that list. -/
+theorem C05_leave_meta_subscribers (r : Realm) (hi : RealmInv r) (k : SessKey) (mode : LeaveMode)
+    (hk : r.isClient k) (hnb : r.busy k = false) (req : Nat) (details : Dict) (args : List WVal) (kw : Dict) :
+    let r' := r.leave k mode
+    match subArg r' args with
+    | none =>
+      metaProc r' MetaProcSubListSubscribers req details args kw = (mErr req ErrNoSuchSubscription, r') ∧
+      metaProc r' MetaProcSubCountSubscribers req details args kw = (mErr req ErrNoSuchSubscription, r')
+    | some s =>
+      s ∈ r'.broker.subs ∧ k ∉ s.members ∧ sidVal k ∉ s.members.map sidVal ∧
+      metaProc r' MetaProcSubListSubscribers req details args kw = (mYield req [.list (s.members.map sidVal)], r') ∧
+      metaProc r' MetaProcSubCountSubscribers req details args kw = (mYield req [.int s.members.length], r') := by
+  intro r'
+  have h1 := metaProc_subListSubscribers r' req details args kw
+  have h2 := metaProc_subCountSubscribers r' req details args kw
+  cases hra : subArg r' args with
+  | none =>
+    rw [hra] at h1 h2
+    exact ⟨h1, h2⟩
+  | some s =>
+    rw [hra] at h1 h2
+    obtain ⟨id, hfr⟩ : ∃ id, r'.broker.findId id = some s := by
+      unfold subArg at hra
+      split at hra
+      · split at hra
+        · exact ⟨_, hra⟩
+        · cases hra
+      · cases hra
+    obtain ⟨hm, hnk⟩ := (C05_leave_subs_gone r hi k mode hk hnb).2.2.1 id s hfr
+    exact ⟨hm, hnk, WpC.sidVal_not_mem hnk, h1, h2⟩
+
+/-- The meta API after the leave of `k`, sessions: the client list is the old one without the entries
+    of key `k`; `wamp.session.list` answers the ids of the OTHER sessions selected by the authrole
+    filter, `wamp.session.count` their number, and `wamp.session.get` of `k`'s session id answers
+    ERROR wamp.error.no_such_session.  (No hypothesis is needed: this is what `sess.Close()` /
+    `delete(r.clients, sid)` does, in every mode; for a `k` that is not attached the leave is a no-op
+    and the filter removes nothing.) -/
+theorem C05_leave_meta_sessions (r : Realm) (k : SessKey) (mode : LeaveMode)
+    (req : Nat) (details : Dict) (args : List WVal) (kw : Dict) :
+    let r' := r.leave k mode
+    r'.clients = r.clients.filter (fun c => c.key != k) ∧
+    (∀ f, sessSel r' f = (sessSel r f).filter (fun c => c.key != k) ∧
+      sidVal k ∉ (sessSel r' f).map (fun c => sidVal c.key)) ∧
+    metaProc r' MetaProcSessionList req details args kw =
+      (match sessFilter args with
+       | none => (mErr req ErrInvalidArgument, r')
+       | some f => (mYield req [.list (((sessSel r f).filter (fun c => c.key != k)).map (fun c => sidVal c.key))], r')) ∧
+    metaProc r' MetaProcSessionCount req details args kw =
+      (match sessFilter args with
+       | none => (mErr req ErrInvalidArgument, r')
+       | some f => (mYield req [.int ((sessSel r f).filter (fun c => c.key != k)).length], r')) ∧
+    (∀ a rest, a.asID = some (sidOf k) →
+      metaProc r' MetaProcSessionGet req details (a :: rest) kw = (mErr req ErrNoSuchSession, r')) := by
+  intro r'
+  have hcl : r'.clients = r.clients.filter (fun c => c.key != k) := WpC.leave_clients r k mode
+  have hsel : ∀ f, sessSel r' f = (sessSel r f).filter (fun c => c.key != k) := by
+    intro f
+    unfold sessSel
+    rw [hcl, List.filter_filter, List.filter_filter]
+    apply List.filter_congr
+    intro c _
+    exact Bool.and_comm _ _
+  refine ⟨hcl, fun f => ⟨hsel f, ?_⟩, ?_, ?_, ?_⟩
+  · intro hm
+    obtain ⟨c, hc, e⟩ := List.mem_map.mp hm
+    rw [hsel] at hc
+    have := (List.mem_filter.mp hc).2
+    have hck : c.key = k := WpC.sidVal_inj e
+    simp [hck] at this
+  · rw [metaProc_sessionList]
+    cases sessFilter args with
+    | none => rfl
+    | some f => simp only [hsel]
+  · rw [metaProc_sessionCount]
+    cases sessFilter args with
+    | none => rfl
+    | some f => simp only [hsel]
+  · intro a rest ha
+    rw [metaProc_sessionGet]
+    simp only [ha]
+    have : r'.keyOfSid (sidOf k) = none := by
+      unfold keyOfSid
+      rw [List.find?_eq_none]
+      intro c hc e
+      rw [hcl] at hc
+      have hne := (List.mem_filter.mp hc).2
+      have hck : c.key = k := WpC.sidOf_inj (by simpa using e)
+      simp [hck] at hne
+    rw [this]
+
+-- non-vacuity on the example: after 2 has left, `wamp.session.list` shows session 1 only,
+-- `wamp.session.count` answers 1, `wamp.session.get` of 2's id answers no_such_session
+example :
+    let r' := WpCEx.r5.leave 2 .lost
+    (sessSel WpCEx.r5 []).map (·.key) = [1, 2] ∧ (sessSel r' []).map (·.key) = [1] ∧
+    (WVal.int (sidOf 2)).asID = some (sidOf 2) := by
+  decide +kernel
+
+/-! ## [WP-C / C05 §2 — end] -/
+
 /-- Testaments.  The bucket of `k` is removed from the table (every mode).  For EVERY non-shutdown
     mode — lost, killed (kill, kill_by_authid, kill_by_authrole AND kill_all), aborted, violation —
     the departure appends, after the tasks of the table removal, exactly: one publish task per
@@ -278,6 +740,217 @@ example : LeaveMode.lost.isShutdown = false ∧ (LeaveMode.violation "x").isShut
     (LeaveMode.killed (.goodbye [] "r") false).isShutdown = false ∧
     (LeaveMode.killed (.goodbye [] "r") true).isShutdown = false ∧
     LeaveMode.shutdown.isShutdown = true := by decide
+
+/-! ## [WP-C / C05 §3 — begin] what the publish task of a testament does -/
+
+/-- The meta session is never written: in every reachable state it is the session the realm was created
+    with — key 0, role publisher with the payload passthru feature (so a testament carrying `ppt_scheme`
+    passes the feature test of `broker.publish`; the meta session used to be aborted by its own publish,
+    audit §0). -/
+theorem C05_meta_publisher_reachable (cfg : Config) (r : Realm) (h : Realm.Reachable cfg r) :
+    r.metaS = ({} : Realm).metaS ∧ r.metaS.key = metaKey ∧
+    r.metaS.hasFeature RolePublisher FeaturePayloadPassthruMode = true := by
+  rw [WpC.Reachable.metaS h]
+  exact ⟨rfl, rfl, by decide⟩
+
+/-- A WELL-FORMED TESTAMENT IS PUBLISHED.  Running the publish task the departure queued for testament
+    `t`, in any state `r` satisfying the invariant in which the topic is a valid URI, `disclose_me` is
+    not requested or the realm allows disclosure, and the meta session has the publisher's payload
+    passthru feature (true in every reachable state, `C05_meta_publisher_reachable`):
+
+    * the new state is `r` with the publication counter advanced by one, the broker after
+      `syncPublish` of the publication `p := WpC.testamentPublication r t` — published by the meta
+      session under the next publication id, the testament's topic, arguments and publish options
+      (`ppt_*` keys go into the event details) — and its EVENTs `evs` delivered;
+    * `evs` are exactly the C01-expected EVENTs: one per (subscription matching the topic, member allowed
+      by the testament's black/white lists), nothing else (`C01_delivery_exact` instantiated);
+    * every attached client's queue is its old queue offered its EVENTs in order (dropped when full);
+      all other queues are untouched;
+    * no acknowledgement is queued anywhere and NO TASK is created (the PUBLISHED a testament with
+      `acknowledge: true` asks for goes to the meta session, which drops it), nobody is aborted or
+      marked as ending, nothing panics, clients / dealer / testament table / subscriptions are
+      unchanged, the invariant holds. -/
+theorem C05_testament_published (r : Realm) (hi : RealmInv r) (t : Testament)
+    (hv : validUri r.broker.strict "" t.topic = true)
+    (hd : t.opts.optFlag OptDiscloseMe = false ∨ r.broker.allowDisclose = true)
+    (hf : r.metaS.hasFeature RolePublisher FeaturePayloadPassthruMode = true) :
+    let p := WpC.testamentPublication r t
+    let evs := (r.broker.syncPublish r.session? r.now p).2
+    let r' := r.runTask (.metaPub (testamentPub t))
+    r' = ({ r with pubCount := r.pubCount + 1,
+                   broker := (r.broker.syncPublish r.session? r.now p).1 } : Realm).deliver evs ∧
+    (p.publisher = metaKey ∧ p.pubId = pubBase + r.pubCount ∧ p.topic = t.topic ∧ p.args = t.args ∧
+      p.kw = t.kw ∧ p.opts = t.opts ∧ p.disclose = t.opts.optFlag OptDiscloseMe ∧
+      p.baseDetails = (if pptScheme t.opts != "" then pptInto t.opts [] else [])) ∧
+    (∀ x ∈ evs, ∃ s k c, Expected r.broker r.session? p s k c ∧ x = ⟨k, expectedEvent p s c⟩) ∧
+    (∀ s k c, Expected r.broker r.session? p s k c → through evs k s.id = [⟨k, expectedEvent p s c⟩]) ∧
+    (∀ k c, k ≠ metaKey → r.client? k = some c → r'.queueOf k = accept c.cap (r.queueOf k) (msgsTo k evs)) ∧
+    (∀ k, (k = metaKey ∨ r.client? k = none) → r'.queueOf k = r.queueOf k) ∧
+    r'.pubCount = r.pubCount + 1 ∧ r'.tasks = r.tasks ∧ r'.ending = r.ending ∧ r'.panic = r.panic ∧
+    r'.clients = r.clients ∧ r'.ds = r.ds ∧ r'.testaments = r.testaments ∧
+    r'.broker.subs = r.broker.subs ∧ RealmInv r' := by
+  intro p evs r'
+  have heq : r' = ({ r with pubCount := r.pubCount + 1,
+                            broker := (r.broker.syncPublish r.session? r.now p).1 } : Realm).deliver evs :=
+    WpC.runTask_testament_ok hi.metaKey t hv hd hf
+  obtain ⟨f1, f2, f3, f4, _, _, f7, f8, _, _, _⟩ := brokerStep_frame r
+    (r.broker.syncPublish r.session? r.now p).1 (r.pubCount + 1) evs
+  obtain ⟨d1, d2, _, _⟩ := delivery_exact hi.binv r.session? r.now p
+  obtain ⟨hinv, hpanic⟩ := runTask_inv hi (.metaPub (testamentPub t)) trivial
+  refine ⟨heq, ⟨rfl, rfl, rfl, rfl, rfl, rfl, rfl, rfl⟩, d1, d2, ?_, ?_, by rw [heq, f2], ?_, by rw [heq, f7],
+    hpanic, by rw [heq, f3], by rw [heq, f4], by rw [heq, f8], ?_, hinv⟩
+  · intro k c hk hc
+    rw [heq]; exact brokerStep_queue r _ _ _ k c hk hc
+  · intro k hk
+    rw [heq]; exact brokerStep_queue_other r _ _ _ k hk
+  · rw [heq, ddeliver_tasks, WpC.publish_sends_no_task, List.append_nil]
+  · rw [heq, f1]; exact (syncPublish_subs _ _ _ _).1
+
+/-- … in particular in every reachable state, where the feature hypothesis holds by itself: a stored
+    testament with a valid topic (and `disclose_me` allowed or absent) is published when its task runs,
+    whatever else its publish options contain (`ppt_scheme`, `acknowledge`, black/white lists). -/
+theorem C05_testament_published_reachable (cfg : Config) (r : Realm) (h : Realm.Reachable cfg r) (t : Testament)
+    (hv : validUri r.broker.strict "" t.topic = true)
+    (hd : t.opts.optFlag OptDiscloseMe = false ∨ r.broker.allowDisclose = true) :
+    r.runTask (.metaPub (testamentPub t)) =
+      ({ r with pubCount := r.pubCount + 1,
+                broker := (r.broker.syncPublish r.session? r.now (WpC.testamentPublication r t)).1 } : Realm).deliver
+        (r.broker.syncPublish r.session? r.now (WpC.testamentPublication r t)).2 ∧
+    (r.runTask (.metaPub (testamentPub t))).tasks = r.tasks ∧
+    (r.runTask (.metaPub (testamentPub t))).ending = r.ending ∧
+    (r.runTask (.metaPub (testamentPub t))).panic = r.panic := by
+  obtain ⟨e, _, _, _, _, _, _, ht, he, hp, _⟩ :=
+    C05_testament_published r h.inv.1 t hv hd (C05_meta_publisher_reachable cfg r h).2.2
+  exact ⟨e, ht, he, hp⟩
+
+-- non-vacuity: in the example state session 2 subscribes to "t"; a testament for "t" that uses payload
+-- passthru is well-formed, and running its publish task appends one EVENT (type 36) to 2's queue
+example :
+    let t : Testament := { topic := "t", args := [.int 7], kw := [], opts := [(OptPPTScheme, .str "x")] }
+    RealmInv WpCEx.r4 ∧ validUri WpCEx.r4.broker.strict "" t.topic = true ∧
+    t.opts.optFlag OptDiscloseMe = false ∧
+    WpCEx.r4.metaS.hasFeature RolePublisher FeaturePayloadPassthruMode = true ∧ pptScheme t.opts = "x" ∧
+    ((WpCEx.r4.runTask (.metaPub (testamentPub t))).queueOf 2).map Msg.typeCode =
+      (WpCEx.r4.queueOf 2).map Msg.typeCode ++ [36] ∧
+    (WpCEx.r4.runTask (.metaPub (testamentPub t))).ending = WpCEx.r4.ending :=
+  ⟨WpCEx.r4_inv, by decide +kernel, by decide +kernel, by decide +kernel, by decide +kernel, by decide +kernel,
+    by decide +kernel⟩
+
+/-- THE SILENT CASES, exactly.  A testament whose topic is not a valid URI (for the realm's strictness,
+    exact match), or that asks for `disclose_me` in a realm that does not allow disclosure, is dropped
+    when its publish task runs: the state is UNCHANGED — no publication id is drawn, nothing is sent,
+    no task, nobody is aborted.  This holds whatever the testament's options say about acknowledgement:
+    `metaPublish` passes the stored `publish_options` on, so with `acknowledge: true` the router does
+    produce ERROR(PUBLISH, 0, wamp.error.invalid_uri / option_disallowed.disclose_me) — addressed to
+    the meta session, which drops everything but INVOCATIONs.  (In Go the meta-procedure handler would
+    answer such a message by re-sending its previous response, see audit C04 (c); the model drops it.) -/
+theorem C05_testament_dropped (r : Realm) (hi : RealmInv r) (t : Testament) :
+    (validUri r.broker.strict "" t.topic = false → r.runTask (.metaPub (testamentPub t)) = r) ∧
+    (validUri r.broker.strict "" t.topic = true →
+      r.metaS.hasFeature RolePublisher FeaturePayloadPassthruMode = true →
+      t.opts.optFlag OptDiscloseMe = true → r.broker.allowDisclose = false →
+      r.runTask (.metaPub (testamentPub t)) = r) :=
+  ⟨WpC.runTask_testament_invalid hi.metaKey t, fun hv hf hd ha => WpC.runTask_testament_disclose hi.metaKey t hv hf hd ha⟩
+
+-- non-vacuity: an invalid topic with `acknowledge: true`; `disclose_me` in the default realm (disclosure off)
+example :
+    let t1 : Testament := { topic := "a..b", args := [], kw := [], opts := [(OptAcknowledge, .bool true)] }
+    let t2 : Testament := { topic := "t", args := [], kw := [], opts := [(OptDiscloseMe, .bool true), (OptAcknowledge, .bool true)] }
+    validUri WpCEx.r4.broker.strict "" t1.topic = false ∧ t1.opts.optFlag OptAcknowledge = true ∧
+    validUri WpCEx.r4.broker.strict "" t2.topic = true ∧ t2.opts.optFlag OptDiscloseMe = true ∧
+    WpCEx.r4.broker.allowDisclose = false := by
+  decide +kernel
+
+/-- the testaments stored for session `k`, in publication order: detached first, then destroyed -/
+def testamentsOf (r : Realm) (k : SessKey) : List Testament :=
+  match bucketOf r k with
+  | some b => b.detached ++ b.destroyed
+  | none => []
+
+/-- a testament the router will publish: valid topic, and `disclose_me` not requested or allowed -/
+def WellFormedTestament (r : Realm) (t : Testament) : Prop :=
+  validUri r.broker.strict "" t.topic = true ∧
+  (t.opts.optFlag OptDiscloseMe = false ∨ r.broker.allowDisclose = true)
+
+/-- "ITS STORED TESTAMENTS ARE PUBLISHED EXACTLY ONCE."  The departure of the attached session `k` in any
+    non-shutdown mode
+    * appends to the pending tasks — after those of the table removal — exactly one publish task per
+      stored testament (`testamentsOf r k`: detached then destroyed, in stored order), followed by
+      `wamp.session.on_leave`: nothing is queued twice, nothing is left out;
+    * removes `k`'s bucket from the testament table (and `k` from `clients`, so nothing can be stored
+      for it again: `C05_add_testament_unattached`): no later event can queue them a second time;
+    * and whenever such a task runs — in whatever state `r2` satisfying the invariant (whose meta session
+      is the publisher the realm was created with) — it publishes the testament ONCE if the testament
+      is well-formed for `r2` (one publication id, the EVENTs of `C05_testament_published`) and NOT AT
+      ALL otherwise (`r2` unchanged).  `strict` and `allowDisclose` are configuration constants, so
+      well-formedness does not depend on when the task runs.
+    For the shutdown mode nothing is queued (`C05_leave_testaments`). -/
+theorem C05_testaments_exactly_once (r : Realm) (k : SessKey) (s : Session) (mode : LeaveMode)
+    (hf : r.clients.find? (fun c => c.key == k) = some s) (hm : mode.isShutdown = false) :
+    (r.leave k mode).tasks =
+      leaveBaseTasks r k mode ++ ((testamentsOf r k).map (fun t => Task.metaPub (testamentPub t)) ++
+        [.metaPub (onLeavePub s)]) ∧
+    bucketOf (r.leave k mode) k = none ∧ testamentsOf (r.leave k mode) k = [] ∧
+    (∀ r2 : Realm, RealmInv r2 → r2.metaS.hasFeature RolePublisher FeaturePayloadPassthruMode = true →
+      ∀ t : Testament,
+        (WellFormedTestament r2 t →
+          r2.runTask (.metaPub (testamentPub t)) =
+            ({ r2 with pubCount := r2.pubCount + 1,
+                       broker := (r2.broker.syncPublish r2.session? r2.now (WpC.testamentPublication r2 t)).1 } : Realm).deliver
+              (r2.broker.syncPublish r2.session? r2.now (WpC.testamentPublication r2 t)).2 ∧
+          (r2.runTask (.metaPub (testamentPub t))).pubCount = r2.pubCount + 1) ∧
+        (¬ WellFormedTestament r2 t → r2.runTask (.metaPub (testamentPub t)) = r2)) := by
+  obtain ⟨h1, h2, _, h4, h5⟩ := C05_leave_testaments r k s mode hf
+  have htt : testamentTasks (bucketOf r k) = (testamentsOf r k).map (fun t => Task.metaPub (testamentPub t)) := by
+    unfold testamentsOf
+    cases hb : bucketOf r k with
+    | none => rfl
+    | some b => rfl
+  have hbk : bucketOf (r.leave k mode) k = none := by
+    unfold bucketOf
+    rw [h1]
+    have : (r.testaments.filter (fun t => t.1 != k)).find? (fun t => t.1 == k) = none := by
+      rw [List.find?_eq_none]
+      intro x hx
+      have := (List.mem_filter.mp hx).2
+      simpa using this
+    rw [this]; rfl
+  refine ⟨by rw [h2 hm, htt], hbk, by unfold testamentsOf; rw [hbk], ?_⟩
+  intro r2 hi2 hf2 t
+  constructor
+  · rintro ⟨hv, hd⟩
+    obtain ⟨e, _, _, _, _, _, hpc, _⟩ := C05_testament_published r2 hi2 t hv hd hf2
+    exact ⟨e, hpc⟩
+  · intro hnw
+    cases hv : validUri r2.broker.strict "" t.topic with
+    | false => exact (C05_testament_dropped r2 hi2 t).1 hv
+    | true =>
+      cases hd : t.opts.optFlag OptDiscloseMe with
+      | false => exact absurd ⟨hv, Or.inl hd⟩ hnw
+      | true =>
+        cases ha : r2.broker.allowDisclose with
+        | true => exact absurd ⟨hv, Or.inr ha⟩ hnw
+        | false => exact (C05_testament_dropped r2 hi2 t).2 hv hf2 hd ha
+
+-- non-vacuity: session 2 of the example state with one detached and one destroyed testament stored
+-- (`RealmInv` does not mention the testament table); its loss queues the two publish tasks, detached
+-- first, then on_leave: three tasks after those of the table removal
+example :
+    let ta : Testament := { topic := "t", args := [], kw := [], opts := [] }
+    let tb : Testament := { topic := "a..b", args := [], kw := [], opts := [] }
+    let r : Realm := { WpCEx.r4 with testaments := [(2, { detached := [tb], destroyed := [ta] })] }
+    RealmInv r ∧ (r.clients.find? (fun c => c.key == 2)).isSome = true ∧
+    (testamentsOf r 2).map (·.topic) = ["a..b", "t"] ∧
+    (r.leave 2 .lost).tasks.length = (leaveBaseTasks r 2 .lost).length + 3 ∧
+    WellFormedTestament r ta ∧ ¬ WellFormedTestament r tb := by
+  refine ⟨?_, by decide +kernel, by decide +kernel, by decide +kernel, ⟨by decide +kernel, Or.inl (by decide +kernel)⟩, ?_⟩
+  · have hi := WpCEx.r4_inv
+    exact hi.of_parts rfl hi.binv hi.dinv hi.bmem hi.dref hi.callers hi.retr hi.tasks hi.inb rfl
+  · rintro ⟨hv, _⟩
+    revert hv
+    decide +kernel
+
+/-! ## [WP-C / C05 §3 — end] -/
 
 /-! ## Testaments belong to attached sessions -/
 
@@ -402,5 +1075,195 @@ theorem C05_bounded (r : Realm) (hi : RealmInv r) :
     (∀ v ∈ r.ds.d.invs, v.callId ∈ r.ds.d.calls ∧ r.att v.callee) :=
   ⟨(CallInv.sizes hi.dinv.call).1, (CallInv.sizes hi.dinv.call).2, hi.dinv.call.calls, hi.callers,
    fun v hv => ⟨(hi.dinv.call.inv_call hv).1, ((C05_live_refs r hi).2.2.2.2.2.1 v hv).1⟩⟩
+
+/-! ## [WP-C / C05 §4 — begin] from the INPUT that ends a session to "gone", and the empty realm -/
+
+open Nexus.L2.WpC in
+/-- FROM THE INPUT TO THE EFFECT ("for any reason … from then on").  The theorems above are about the function
+    `Realm.leave`; this one connects an INPUT to it.  In a state reachable by client-level inputs
+    (`ReachableC`: joining keys are fresh and not the meta key, only attached clients are dropped) whose
+    panic flag is `none` (so nothing is pending: `Reachable.quiescent`), let `k` be an attached session that
+    is not already ending and whose handler is not in the yield retry loop, and let the input be one that
+    ends it (`EndsInput`): its transport is lost (`.drop k`), or it sends GOODBYE, or a protocol violation —
+    any message type the router does not expect, or an ERROR not answering an INVOCATION — that the
+    authorization gate lets through.  Then, when the step is over and unless the model's task fuel ran out
+    (`panic = none` afterwards), `k` is no client any more and occurs NOWHERE: not in a subscription, the
+    broker index, a registration, the callee index, a call, an invocation (`Gone`), not in `ending`, among
+    the deferred departures, the waiting transport input, the retrying handlers or the testament table; and
+    no task is pending.  The proof is the `drain` induction principle (`drain_quiescent`) with the property
+    "a `leave k` is pending while `k` is attached" (`drain_gone`).
+
+    Exceptions, all explicit hypotheses: a BUSY handler (in the retry loop) notices its end only when the
+    loop ends (≤ 65.5 s, `C07_retry_*`; the departure is deferred: `runTask_leave`), and a session that is
+    already ending ignores further input. -/
+theorem C05_end_input_gone (cfg : Config) (r : Realm) (h : ReachableC cfg r) (hp0 : r.panic = none) (k : SessKey)
+    (hk : r.isClient k) (hb : r.busy k = false) (he : k ∉ r.ending) (op : Op) (hop : EndsInput r k op)
+    (hp : (r.step op).2.panic = none) :
+    ¬ (r.step op).2.isClient k ∧ Gone (r.step op).2 k ∧ (∀ t ∈ (r.step op).2.testaments, t.1 ≠ k) ∧
+    k ∉ (r.step op).2.ending ∧ (∀ d ∈ (r.step op).2.deferred, d.1 ≠ k) ∧ (∀ e ∈ (r.step op).2.inbox, e.1 ≠ k) ∧
+    (∀ x ∈ (r.step op).2.retries, x.callee ≠ k) ∧ (r.step op).2.tasks = [] := by
+  have _ht : r.tasks = [] := Reachable.quiescent h.reachable hp0
+  obtain ⟨g1, g2, g3, g4, g5, g6, g7, _, _⟩ := step_gone h.reachable.inv.1 h.ctl hk hb he hop hp
+  refine ⟨g1, g2, ?_, g3, g4, g5, g6, g7⟩
+  intro t ht e
+  exact g1 (e ▸ (Realm.Reachable.step op h.reachable).testaments t ht)
+
+open Nexus.L2.WpC in
+/-- the state-level form (no history): from any state satisfying the two invariants -/
+theorem C05_end_input_gone_inv (r : Realm) (hi : RealmInv r) (hc : CtlInv r) (k : SessKey)
+    (hk : r.isClient k) (hb : r.busy k = false) (he : k ∉ r.ending) (op : Op) (hop : EndsInput r k op)
+    (hp : (r.step op).2.panic = none) :
+    ¬ (r.step op).2.isClient k ∧ Gone (r.step op).2 k ∧ k ∉ (r.step op).2.ending ∧ (r.step op).2.tasks = [] := by
+  obtain ⟨g1, g2, g3, _, _, _, g7, _, _⟩ := step_gone hi hc hk hb he hop hp
+  exact ⟨g1, g2, g3, g7⟩
+
+-- non-vacuity: session 1 (attached, with a pending call to session 2) loses its transport / says GOODBYE / sends WELCOME
+open Nexus.L2.WpC in
+example : EndsInput WpCEx.r5 1 (.drop 1) ∧ EndsInput WpCEx.r5 1 (.msg 1 (.goodbye [] "wamp.close.normal")) ∧
+    EndsInput WpCEx.r5 1 (.msg 1 (.welcome 1 [])) ∧
+    WpCEx.r5.busy 1 = false ∧ 1 ∉ WpCEx.r5.ending ∧ (WpCEx.r5.step (.drop 1)).2.panic = none ∧
+    (WpCEx.r5.step (.drop 1)).2.clients.map (·.key) = [2] := by
+  obtain ⟨s1, hf⟩ := Option.isSome_iff_exists.mp
+    (by decide +kernel : (WpCEx.r5.clients.find? (fun c => c.key == 1)).isSome = true)
+  have hz : WpCEx.r5.cfg.authz = none := by
+    cases h : WpCEx.r5.cfg.authz with
+    | none => rfl
+    | some l => exact absurd (show WpCEx.r5.cfg.authz.isNone = true by decide +kernel) (by rw [h]; simp)
+  have hg : ∀ m, (authzGate WpCEx.r5 s1 m).1 = true := by
+    intro m; unfold authzGate; rw [hz]
+  exact ⟨Or.inl rfl, Or.inr ⟨_, s1, rfl, hf, rfl, hg _⟩, Or.inr ⟨_, s1, rfl, hf, rfl, hg _⟩,
+    by decide +kernel, by decide +kernel, by decide +kernel, by decide +kernel⟩
+
+open Nexus.L2.WpC in
+/-- TESTAMENTS ARE LIVE, at every level.  Every testament bucket is stored under the key of an attached
+    session: in every reachable state (`Reachable`, any inputs), kept by every step, and — since F20 is fixed
+    (`add_testament` checks `clients`) — kept by EVERY SINGLE internal task, external input and timed event
+    whichever is scheduled next (`C05_testaments_task_level`, `C05_testaments_attached`).  So the statement
+    holds at the level of atomic actions, not only at quiescence. -/
+theorem C05_testaments_live (cfg : Config) (r : Realm) (h : Realm.Reachable cfg r) :
+    (∀ t ∈ r.testaments, r.isClient t.1) ∧
+    (∀ task, TaskOk task → ∀ t ∈ (r.runTask task).testaments, (r.runTask task).isClient t.1) ∧
+    (∀ op, ∀ t ∈ (r.stepOp op).testaments, (r.stepOp op).isClient t.1) ∧
+    (∀ op, ∀ t ∈ (r.step op).2.testaments, (r.step op).2.isClient t.1) :=
+  ⟨h.testaments, fun task ht => runTask_testaments h.inv.1 h.testaments task ht,
+   fun op => stepOp_testaments h.inv.1 h.testaments op, fun op => (Realm.Reachable.step op h).testaments⟩
+
+open Nexus.L2.WpC in
+/-- "ONCE ALL SESSIONS OF A REALM HAVE LEFT … THE ROUTER HOLDS NO PER-SESSION STATE", completed.
+    `C05_returns_to_empty` covers the broker and dealer tables; this adds the realm's own per-session state.
+    In a state reachable by client-level inputs (`ReachableC`) in which no session is attached: the
+    testament table is empty, nobody is marked as ending, no departure is deferred, no input waits in a
+    transport, only the meta session's handler can be in the retry loop (F19, for ≤ 65.5 s, then it is gone
+    too), and — unless a fuel marker was set — no task is pending.  (`queues`, `closedPeers`, `ghosts` hold
+    what departed sessions have not yet read; they are the subject of C07/C11. The dealer's `timers` list
+    keeps cancelled timers until they fire: a model artefact, in Go the goroutine ends.) -/
+theorem C05_returns_to_empty' (cfg : Config) (r : Realm) (h : ReachableC cfg r) (hc : r.clients = []) :
+    r.testaments = [] ∧ r.ending = [] ∧ r.deferred = [] ∧ r.inbox = [] ∧
+    (∀ x ∈ r.retries, x.callee = metaKey ∧ pptScheme x.opts = "") ∧
+    (r.panic = none → r.tasks = []) ∧
+    ((∀ s ∈ r.broker.subs, s.members = [] ∧ r.broker.hasHist s.id = true) ∧ r.broker.index = [] ∧
+     (∀ g ∈ r.ds.d.regs, g.callees = [metaKey]) ∧ (∀ e ∈ r.ds.d.index, e.1 = metaKey) ∧
+     r.ds.d.calls = [] ∧ r.ds.d.invs = [] ∧ r.ds.d.byCall = [] ∧ (∀ x ∈ r.retries, x.callee = metaKey)) := by
+  have hi := h.reachable.inv.1
+  have hct := h.ctl
+  have nocl : ∀ k, ¬ r.isClient k := by
+    rintro k ⟨c, hcm, _⟩
+    rw [hc] at hcm; cases hcm
+  have hretr : ∀ x ∈ r.retries, x.callee = metaKey := fun x hx => (hi.retr x hx).elim id (fun h => absurd h (nocl _))
+  refine ⟨?_, ?_, ?_, ?_, fun x hx => ⟨hretr x hx, hct.safe.retries x hx (hretr x hx)⟩,
+    fun hp => Reachable.quiescent h.reachable hp, C05_returns_to_empty r hi hc⟩
+  · cases ht : r.testaments with
+    | nil => rfl
+    | cons t ts => exact absurd (h.reachable.testaments t (by rw [ht]; exact List.mem_cons_self ..)) (nocl _)
+  · cases he : r.ending with
+    | nil => rfl
+    | cons j js => exact absurd (hct.ending j (by rw [he]; exact List.mem_cons_self ..)) (nocl _)
+  · cases hd : r.deferred with
+    | nil => rfl
+    | cons d ds =>
+      exfalso
+      have hdm : d ∈ r.deferred := by rw [hd]; exact List.mem_cons_self ..
+      obtain ⟨x, hx, hxk⟩ := List.any_eq_true.mp (hct.defBusy d hdm)
+      have : x.callee = d.1 := by simpa using hxk
+      exact hct.safe.deferred d hdm (this ▸ hretr x hx)
+  · cases hib : r.inbox with
+    | nil => rfl
+    | cons e es =>
+      exfalso
+      obtain ⟨⟨c, hcm, _⟩, _⟩ := hi.inb e (by rw [hib]; exact List.mem_cons_self ..)
+      rw [hc] at hcm; cases hcm
+
+/-- the same over ALL histories of the model's input type … -/
+def C05_returns_to_empty'_full : Prop :=
+  ∀ (cfg : Config) (r : Realm), Realm.Reachable cfg r → r.clients = [] → r.ending = []
+
+open Nexus.L2.WpC in
+/-- … is false, by the artefact of the model's input type already seen in `C04_meta_never_ends_full_fails`:
+    `.drop 5` in a realm that session 5 never joined leaves 5 in `ending` for ever (no transport exists
+    that could be lost; the harness never produces it).  Recommended model change: `stepOp (.drop k)` = identity
+    unless `k` is an attached client. -/
+theorem C05_returns_to_empty'_full_fails : ¬ C05_returns_to_empty'_full := by
+  intro h
+  have hs : (Realm.create {}).isSome = true := by decide +kernel
+  obtain ⟨r0, h0⟩ := Option.isSome_iff_exists.mp hs
+  obtain ⟨_, _, hc, _, _, ht, hr, _⟩ := create_rinv h0
+  obtain ⟨_, _, he⟩ := create_metaSafe h0
+  obtain ⟨d1, d2⟩ := drop_nonclient r0 5 ht hr (by rw [hc]; intro c hc'; cases hc') (by rw [he]; intro hin; cases hin)
+  have h1 := h {} _ (Realm.Reachable.step (.drop 5) (Realm.Reachable.init h0)) (by rw [d2, hc])
+  rw [d1] at h1
+  cases hh : r0.ending with
+  | nil => rw [hh] at h1; cases h1
+  | cons a b => rw [hh] at h1; cases h1
+
+-- non-vacuity: the freshly created realm
+open Nexus.L2.WpC in
+example (cfg : Config) (r : Realm) (h : Realm.create cfg = some r) : ReachableC cfg r ∧ r.clients = [] :=
+  ⟨.init h, (create_rinv h).2.2.1⟩
+
+open Nexus.L2.WpC in
+/-- "FOR ANY REASON": whoever is marked as ending leaves by the end of the step.  Every way a session's end
+    is decided — lost transport, GOODBYE, protocol violation, ABORT by the broker (`handlePublish`) or the
+    dealer (`syncCall`, `syncYield`), kill / kill_by_authid / kill_by_authrole / kill_all through the meta API
+    (`C18_kill`: exactly the selected sessions are marked and get a `leave` task) — marks the session in
+    `ending` and queues its `leave` together (`Paired`).  So (invariant `EndPending`) in every state reachable
+    by client-level inputs each key in `ending` has its departure pending or deferred, and AT QUIESCENCE
+    (`panic = none`, hence no pending task) the only sessions still marked are attached sessions whose handler
+    is in the yield retry loop, their departure being deferred until the loop ends (≤ 65.5 s, C07): everybody
+    else who was told to end HAS left (and then occurs nowhere: `C05_leave_gone`). -/
+theorem C05_ending_only_busy (cfg : Config) (r : Realm) (h : ReachableC cfg r) :
+    (∀ k ∈ r.ending, (∃ mode, Task.leave k mode ∈ r.tasks) ∨ ∃ d ∈ r.deferred, d.1 = k) ∧
+    (r.panic = none → ∀ k ∈ r.ending, r.isClient k ∧ r.busy k = true ∧ ∃ mode, (k, mode) ∈ r.deferred) :=
+  ⟨h.endPending, fun hp => ending_only_busy h.ctl h.endPending (Reachable.quiescent h.reachable hp)⟩
+
+open Nexus.L2.WpC in
+/-- … and from ANY moment inside a step (a state `q` between two atomic actions, satisfying the invariants —
+    e.g. right after the `kill` meta procedure ran): a session that is marked as ending and whose handler is
+    free is, once the pending tasks have run (no fuel marker), no client any more and referenced nowhere. -/
+theorem C05_marked_ending_gone (q : Realm) (hi : RealmInv q) (hc : CtlInv q) (he : EndPending q) (k : SessKey)
+    (hk : k ∈ q.ending) (hb : q.busy k = false) (hp : (drain taskFuel q).panic = none) :
+    ¬ (drain taskFuel q).isClient k ∧ Gone (drain taskFuel q) k ∧ k ∉ (drain taskFuel q).ending ∧
+    (drain taskFuel q).tasks = [] := by
+  have hkm : k ≠ metaKey := hc.safe.client_ne (hc.ending k hk)
+  obtain ⟨g1, g2, g3, g4, _⟩ := drain_gone hkm q hi hc (leaving_of_ending hc he hk hb) hp
+  obtain ⟨q1, q2, _⟩ := gone_of_not_client g3 g4 hkm g1
+  exact ⟨g1, q1, q2, g2⟩
+
+/-- `EndPending` is kept by every atomic action (so it holds between any two of them). -/
+theorem C05_end_pending_preserved (r : Realm) (hi : RealmInv r) (hc : Nexus.L2.WpC.CtlInv r) (h : Nexus.L2.WpC.EndPending r) :
+    (∀ op, Nexus.L2.WpC.EndPending (r.stepOp op)) ∧
+    (∀ t ts, r.tasks = t :: ts → Nexus.L2.WpC.EndPending (runTask { r with tasks := ts } t)) ∧
+    (∀ t, Nexus.L2.WpC.EndPending (r.timerDue t)) ∧ (∀ x, Nexus.L2.WpC.EndPending (r.retryDue x)) ∧
+    (FuelOnly r.panic → ∀ op, Nexus.L2.WpC.OpC r op → Nexus.L2.WpC.EndPending (r.step op).2) :=
+  ⟨fun op => h.stepOp op, fun _ _ ht => h.runHead hc ht, fun t => h.timerDue t, fun x => h.retryDue x,
+   fun hp op hop => h.step hi hp hc op hop⟩
+
+-- non-vacuity of `C05_marked_ending_gone`: session 1 of the example state has just been told to end (kill)
+open Nexus.L2.WpC in
+example : let q : Realm := { WpCEx.r5 with tasks := [.leave 1 (.killed (.goodbye [] "wamp.close.normal") false)], ending := [1] }
+    1 ∈ q.ending ∧ q.busy 1 = false ∧ (drain taskFuel q).panic = none ∧ (drain taskFuel q).clients.map (·.key) = [2] := by
+  intro q
+  exact ⟨List.mem_singleton.mpr rfl, by decide +kernel, by decide +kernel, by decide +kernel⟩
+
+/-! ## [WP-C / C05 §4 — end] -/
 
 end Nexus.C05
